@@ -1086,7 +1086,14 @@ func (vc *VC) convert(v Val, from, to types.Type, st *State) Val {
 	// string(bytes) / []byte(string) / string(runes)
 	if _, ok := fu.(*types.Slice); ok && tok && tb.Kind() == types.String {
 		sv := v.(SliceVal)
-		arr := vc.load(st, sv.Base).(Term)
+		if sv.Base.Cell == nil {
+			return vc.strLit("")
+		}
+		arr, ok := vc.load(st, sv.Base).(Term)
+		if !ok {
+			// bytes of a small array: the text is not modelled (only used in messages)
+			return vc.freshTerm("str", SStr)
+		}
 		return vc.ufApp("string_of_"+sanitize(arr.S.Elem.String()), SStr, arr, sv.Off, sv.Len)
 	}
 	if fok && fb.Kind() == types.String {
